@@ -121,7 +121,10 @@ func (g *gen) strBody(q byte, n int) string {
 			}
 		case 22:
 			if legacyOK {
-				p = r.Pick("\\1", "\\7", "\\12", "\\101", "\\42", "\\47", "\\140", "\\134", "\\377", "\\400", "\\015", "\\00", "\\08"[:2]+"")
+				p = r.Pick("\\1", "\\7", "\\12", "\\101", "\\42", "\\47", "\\140", "\\134", "\\177", "\\400", "\\015", "\\00", "\\0")
+				if g.known && r.Chance(1, 3) {
+					p = r.Pick("\\377", "\\200", "\\251")
+				}
 				nul = true // conservatively avoid a following digit changing the escape
 			} else {
 				p = "o"
